@@ -37,6 +37,8 @@ class Outcome:
         self.stats = collections.Counter()
         self.fps = set()
         self.states = set()
+        self.maxima = {}
+        self.trace = None          # human-readable schedule / fault / history trace of the failing run
         self.sample = None
         self._h = hashlib.sha256()
         self.sim_time = 0.0
@@ -44,6 +46,10 @@ class Outcome:
     def violation(self, kind, message, **detail):
         self.violations.append({"kind": kind, "message": message, "detail": detail})
         self._h.update(("V:%s:%s" % (kind, json.dumps(detail, sort_keys=True, default=str))).encode())
+
+    def maximum(self, name, value):
+        if value > self.maxima.get(name, float("-inf")):
+            self.maxima[name] = value
 
     def feed(self, text):
         self._h.update(str(text).encode())
@@ -72,6 +78,8 @@ class FrozenOutcome:
         self.states = set(d["states"])
         self.sample = d["sample"]
         self.sim_time = d["sim_time"]
+        self.maxima = d.get("maxima", {})
+        self.trace = d.get("trace")
         self._digest = d["digest"]
 
     def digest(self):
@@ -108,7 +116,7 @@ def _run_case_forked(spec, seed, values):
             out = spec.case(ch)
             payload = pickle.dumps({"ok": True, "log": ch.log, "out": {
                 "violations": out.violations, "stats": dict(out.stats), "fps": list(out.fps), "states": list(out.states),
-                "sample": out.sample, "sim_time": out.sim_time, "digest": out.digest()}})
+                "sample": out.sample, "sim_time": out.sim_time, "digest": out.digest(), "maxima": out.maxima, "trace": getattr(out, "trace", None)}})
         except BaseException:       # noqa: BLE001
             payload = pickle.dumps({"ok": False, "error": traceback.format_exc()})
             code = 3
@@ -143,7 +151,7 @@ def _worker(spec_name, base_seed, indices, wall_deadline, want_digests, max_keep
         spec.prepare()
     res = {"n": 0, "stats": collections.Counter(), "fps": set(), "states": set(), "violations": [],
            "samples": [], "digests": {}, "truncated": False, "sim_time": 0.0, "stuck": None,
-           "nviol": 0, "sigs": collections.Counter()}
+           "nviol": 0, "sigs": collections.Counter(), "maxima": {}}
     fixed = list(spec.fixed_cases()) if hasattr(spec, "fixed_cases") else []
     for idx in indices:
         if time.time() > wall_deadline:
@@ -165,6 +173,9 @@ def _worker(spec_name, base_seed, indices, wall_deadline, want_digests, max_keep
         res["fps"].update(out.fps)
         res["states"].update(out.states)
         res["sim_time"] += out.sim_time
+        for k_, v_ in getattr(out, "maxima", {}).items():
+            if v_ > res["maxima"].get(k_, float("-inf")):
+                res["maxima"][k_] = v_
         if idx in want_digests:
             res["digests"][idx] = out.digest()
         if out.sample is not None and len(res["samples"]) < 3:
@@ -214,7 +225,7 @@ def _shrink_one(spec_name, viol, budget_s):
     v = out.violations[0]
     return {"reproduced": True, "viol": viol, "values": ch.values(), "labels": [(l, n) for (l, n, _) in ch.log],
             "kind": v["kind"], "message": v["message"], "detail": v["detail"], "sig": signature(v),
-            "digest": out.digest(), "shrink": info, "sample": out.sample}
+            "digest": out.digest(), "shrink": info, "sample": out.sample, "trace": getattr(out, "trace", None)}
 
 
 # ------------------------------------------------------------------------------------------------
@@ -253,6 +264,7 @@ def write_replay(spec, rep, base_seed):
         "seed": rep["viol"]["seed"], "base_seed": base_seed, "index": rep["viol"]["index"],
         "decisions": rep["values"], "labels": rep["labels"], "digest": rep["digest"],
         "original_length": len(rep["viol"]["values"]), "shrink": rep["shrink"], "case": rep.get("sample"),
+        "trace": rep.get("trace"),
         "replay_cmd": "bin/check %s --replay <this file>" % spec.PROPERTY,
     }
     h = hashlib.sha256(json.dumps(body["decisions"]).encode()).hexdigest()[:10]
@@ -327,7 +339,7 @@ def run_check(spec, tier, base_seed, nproc=None, n_override=None):
     ctx = multiprocessing.get_context("fork")
     merged = {"n": 0, "stats": collections.Counter(), "fps": set(), "states": set(), "violations": [],
               "samples": [], "digests": {}, "truncated": False, "sim_time": 0.0, "stuck": [],
-              "nviol": 0, "sigs": collections.Counter(), "cpu_wall": 0.0}
+              "nviol": 0, "sigs": collections.Counter(), "cpu_wall": 0.0, "maxima": {}}
     harness_errors = []
     with concurrent.futures.ProcessPoolExecutor(max_workers=nproc, mp_context=ctx) as ex:
         nfixed = len(list(spec.fixed_cases())) if hasattr(spec, "fixed_cases") else 0
@@ -352,6 +364,9 @@ def run_check(spec, tier, base_seed, nproc=None, n_override=None):
             merged["nviol"] += r["nviol"]
             merged["sigs"].update(r["sigs"])
             merged["cpu_wall"] += r["wall"]
+            for k_, v_ in r.get("maxima", {}).items():
+                if v_ > merged["maxima"].get(k_, float("-inf")):
+                    merged["maxima"][k_] = v_
             if r["stuck"]:
                 merged["stuck"].append(r["stuck"])
     batch_wall = time.time() - t0
@@ -486,6 +501,7 @@ def run_check(spec, tier, base_seed, nproc=None, n_override=None):
         "violating_cases": merged["nviol"],
         "violation_signatures": dict(merged["sigs"]),
         "known_findings_hit": [k.get("id") for k, _ in known_hits],
+        "observed_maxima": {k: round(v, 6) for k, v in sorted(merged["maxima"].items())} or None,
         "extra_step": extra_info,
         "processes": nproc,
         "batch_wall_s": round(batch_wall, 2),
